@@ -9,6 +9,7 @@ import (
 	"net/http/httptest"
 	"net/url"
 	"strings"
+	"time"
 
 	restful "github.com/emicklei/go-restful/v3"
 )
@@ -32,6 +33,9 @@ const CondHeader = "X-Verif-Conds"
 
 func condFn(i int) restful.RouteSelectionConditionFunction {
 	return func(r *http.Request) bool {
+		if r.Header.Get(FaultHeader) == "cond" {
+			panic("verif: fault traffic, the route condition panics")
+		}
 		v := r.Header.Get(CondHeader)
 		return i < len(v) && v[i] == '1'
 	}
@@ -98,6 +102,9 @@ func RouteBuilder(ws *restful.WebService, s Service, r RouteDecl) *restful.Route
 			}
 			cp.selPath = req.SelectedRoutePath()
 		}
+		if req.Request.Header.Get(FaultHeader) == "handler" {
+			panic("verif: fault traffic, the route function panics")
+		}
 		resp.WriteHeader(200)
 	})
 	return b
@@ -128,6 +135,38 @@ func HTTPRequest(r Req) *http.Request {
 	}
 	return &http.Request{Method: r.Method, URL: &url.URL{Path: r.Path}, Header: h, Body: http.NoBody,
 		ContentLength: r.CL, Proto: "HTTP/1.1", ProtoMajor: 1, ProtoMinor: 1, Host: "example.test"}
+}
+
+// FaultHeader marks fault traffic: "handler" makes the route function panic after it has looked at its
+// parameters, "cond" makes every If-condition of the table panic (user code that runs during route
+// selection). The answers to fault traffic are not looked at; what it leaves behind is.
+const FaultHeader = "X-Verif-Fault"
+
+// Fault sends r as fault traffic of the given kind.
+func Fault(c *restful.Container, r Req, kind string) {
+	hr := HTTPRequest(r)
+	hr.Header.Set(FaultHeader, kind)
+	defer func() { recover() }()
+	c.Dispatch(httptest.NewRecorder(), hr)
+}
+
+// StillUsable registers and removes a WebService on c (what needs the container's write lock) and
+// reports whether that came back within two seconds.
+func StillUsable(c *restful.Container) bool {
+	done := make(chan struct{})
+	go func() {
+		defer close(done)
+		defer func() { recover() }()
+		ws := new(restful.WebService).Path("/verif-still-usable")
+		c.Add(ws)
+		c.Remove(ws)
+	}()
+	select {
+	case <-done:
+		return true
+	case <-time.After(2 * time.Second):
+		return false
+	}
 }
 
 // Dispatch runs one request through Container.Dispatch and projects the outcome.
